@@ -135,7 +135,7 @@ def crash_history(ops: List[int], na: int, nb: int, nc: int, ni: int, nj: int, i
     """
     pre: len(ops) <= B['ops'] and all(0 <= o <= 3 for o in ops)
     pre: na >= 0 and nb >= 0 and nc >= 0 and ni >= 0 and nj >= 0 and cut >= 0
-    pre: 0 <= init <= 3 and -1 <= crash_at <= B['steps'] and -1 <= crash2 <= 2
+    pre: 0 <= init <= 3 and -1 <= crash_at <= B['steps'] and -1 <= crash2 <= 1
     post: _
     """
     fs = FakeFS(empty=Rope() if SYM else b"")
@@ -195,8 +195,12 @@ def crash_history(ops: List[int], na: int, nb: int, nc: int, ni: int, nj: int, i
 def _shards(tier):
     out = []
     for init in range(4):
-        out.append(("init == %d" % init, "len(ops) == 0 or ops[0] == 0"))
-        for c in (1, 2, 3):
+        for c in (0, 1):
+            first = "len(ops) >= 1 and ops[0] == %d" % c
+            out.append(("init == %d" % init, ("len(ops) == 0 or " if c == 0 else "") + "len(ops) == 1 and ops[0] == %d" % c))
+            out.append(("init == %d" % init, first, "len(ops) >= 2 and ops[1] <= 1"))
+            out.append(("init == %d" % init, first, "len(ops) >= 2 and ops[1] >= 2"))
+        for c in (2, 3):
             out.append(("init == %d" % init, "len(ops) >= 1 and ops[0] == %d" % c))
     return out
 
